@@ -234,8 +234,5 @@ pub fn replay(r: &serde_json::Value) -> bool {
         }
         _ => return false,
     }
-    for v in &rep.violations {
-        println!("{}: {}", v.signature, v.detail);
-    }
-    rep.violations.is_empty()
+    crate::util::print_replay(&rep)
 }
